@@ -125,10 +125,11 @@ theorem bytesToBits_append (a b : Bytes) : bytesToBits (a ++ b) = bytesToBits a 
 
 theorem readUnary_replicate (k z : Nat) (r : Bits) :
     readUnary k (List.replicate z false ++ true :: r) = .ok (k + z, r) := by
+  show readUnaryAux k _ = _
   induction z generalizing k with
-  | zero => simp [readUnary]
+  | zero => simp [readUnaryAux]
   | succ z ih =>
-    simp only [List.replicate_succ, List.cons_append, readUnary]
+    simp only [List.replicate_succ, List.cons_append, readUnaryAux]
     rw [ih]; congr 2; omega
 
 theorem bitLen_spec {v : Nat} (hv : v ≠ 0) : 2 ^ (bitLen v - 1) ≤ v ∧ v < 2 ^ (bitLen v - 1 + 1) := by
@@ -143,7 +144,7 @@ theorem readUe_writeUe {v : Nat} {w : Bits} (r : Bits) (h : writeUe v = .ok w) :
   split at h
   · rename_i h0
     injection h with h; subst h; subst h0
-    simp [readUe, readUnary, bind, P.bind, pure, P.pure]
+    simp [readUe, readUnary, readUnaryAux, bind, P.bind, pure, P.pure]
   · rename_i h0
     split at h
     · cases h
